@@ -1825,6 +1825,11 @@ impl AggregateExec {
                     aggr_index: i,
                     shared_bound: Arc::new(Mutex::new(ScalarValue::Null)),
                 });
+            } else {
+                // A `min`/`max` over anything but a plain column still needs every
+                // input row: a filter built from the other aggregates would drop
+                // rows this one has to see.
+                return;
             }
         }
 
